@@ -182,13 +182,17 @@ static void exec(const plan_t *p)
                 size_t delivered;
                 if (pos > o->slen) pos = o->slen;
                 if (!seekable) pos = 0;
-                fd = simfd_new_src(0, o->s, o->slen, seekable, 0, pos);
+                /* a3 = 1: a non-blocking pipe or socket: a read may answer EAGAIN, and when everything queued has been read it does */
+                int nonblock = !seekable && o->na > 3 && o->a[3] == 1;
+                simfd_eagain = 0;
+                fd = simfd_new_src(0, o->s, o->slen, seekable, nonblock, pos);
+                if (nonblock) probe_hit("fd_nonblocking");
                 if (isnew) made = viaclass ? (spif_mbuff_t)(SPIF_MBUFFCLASS_VAR(mbuff)->new_from_fd)(fd) : spif_mbuff_new_from_fd(fd); else ok = viaclass ? (spif_bool_t)(long)(SPIF_MBUFFCLASS_VAR(mbuff)->init_from_fd)(self, fd) : spif_mbuff_init_from_fd(self, fd);
                 delivered = simfd_src_pos(0, fd) - pos;
                 simfd_close_harness(0, fd);
                 if (seekable) { m_set(m, o->s + pos, o->slen - pos); may_fail = (o->slen - pos == 0); probe_hit("fd_regular_file"); }
                 else {
-                    if (delivered != o->slen && !simfd_hard_error) {
+                    if (delivered != o->slen && !simfd_hard_error && !simfd_eagain) {
                         if (made && isnew) { objs[s] = made; }
                         sim_fail("MISMATCH(fd-not-drained)", "constructor stopped after %zu of %zu bytes although the descriptor reported neither EOF nor an error", delivered, o->slen);
                     }
@@ -287,7 +291,21 @@ static void exec(const plan_t *p)
             }
             if (idx < 0) idx += L;
             expect_ok = idx >= 0 && idx < L;
-            if (expect_ok) { if (cnt < 0) cnt = idx + L + cnt; expect_ok = cnt >= 0 && cnt <= L - idx; }
+            if (expect_ok && cnt < 0) {
+                /* a negative count: how it is turned into a number of characters is not stated.  Two readings are accepted -- the one this
+                   function has always used (idx + len + cnt) and the one substr uses (what follows idx, less -cnt) -- and the call's own
+                   outcome says which was taken: refused only if some reading refuses, accepted only if some reading accepts, and then
+                   the new length must be that reading's */
+                long long cA = idx + L + cnt, cB = L - idx + cnt;
+                int okA = cA >= 0 && cA <= L - idx, okB = cB >= 0 && cB <= L - idx;
+                if (!b) { if (okA && okB) sim_fail("MISMATCH(return)", "%s with arguments in range under every reading (idx=%ld cnt=%ld len=%lld) returned FALSE", k, o->a[1], o->a[2], L); expect_ok = 0; b = 0; cnt = 0; }
+                else if (okA && (long long)self->len == L - cA + (long long)il) cnt = cA;
+                else if (okB && (long long)self->len == L - cB + (long long)il) cnt = cB;
+                else if (!okA && !okB) { expect_ok = 0; cnt = 0; }
+                else sim_fail("MISMATCH(len)", "%s(idx=%ld cnt=%ld) on %lld characters left %lld: neither reading of the negative count gives that", k, o->a[1], o->a[2], L, (long long)self->len);
+                probe_hit("negative_count");
+            }
+            if (expect_ok) expect_ok = cnt >= 0 && cnt <= L - idx;
             if (!expect_ok) {
                 probe_hit("refused_op");
                 if (b) sim_fail("MISMATCH(refusal)", "%s with out-of-range position/count (idx=%ld cnt=%ld len=%lld) was accepted", k, o->a[1], o->a[2], L);
@@ -312,9 +330,15 @@ static void exec(const plan_t *p)
             case 3: b = spif_mbuff_sprintf(self, (spif_charptr_t)""); n = 0; out[0] = 0; break;
             default: b = spif_mbuff_sprintf(self, (spif_charptr_t)NULL); n = -1; out[0] = 0; break;
             }
-            if (n < 0) { if (b) sim_fail("MISMATCH(return)", "sprintf(NULL format) returned TRUE"); n = 0; }
+            if (n < 0) {
+                /* no format: refused.  Whether the old bytes are still there or already gone is not stated; one or the other */
+                if (b) sim_fail("MISMATCH(return)", "sprintf(NULL format) returned TRUE");
+                if ((size_t)self->len == m->len && (!m->len || (self->buff && sa_readable(self->buff, m->len) && !memcmp(self->buff, m->b, m->len)))) goto sprintf_done;
+                n = 0;
+            }
             else if (n > 0 && !b) sim_fail("MISMATCH(return)", "sprintf returned FALSE for a non-empty result");
             m_set(m, out, (size_t)n);
+            sprintf_done: ;
         } else if (!strcmp(k, "done")) {
             if (!spif_mbuff_done(self)) sim_fail("MISMATCH(return)", "done returned FALSE");
             m_set(m, "", 0);
@@ -410,8 +434,22 @@ static void exec(const plan_t *p)
                 if (m->len < alen) probe_hit("cmp_different_lengths");
                 /* more bytes requested than the object holds: the pinned suite (sprintf test) compares into the spare capacity,
                    the ideal sequence says LESS -- value is don't-care there, memory safety is still demanded */
-                if (alen <= m->len && got != to_cmp(want)) sim_fail("MISMATCH(query)", "%s returned %d, ideal sequences (len %zu vs %zu given) compare %d", k, (int)got, m->len, alen, want);
-                if (alen > m->len && m->len) { int c = memcmp(m->b, arg, m->len); if (c && got != to_cmp(c)) sim_fail("MISMATCH(query)", "%s returned %d although the first %zu bytes already compare %d", k, (int)got, m->len, c); }
+                if (alen == m->len && got != to_cmp(want)) sim_fail("MISMATCH(query)", "%s returned %d, ideal sequences (len %zu vs %zu given) compare %d", k, (int)got, m->len, alen, want);
+                if (alen < m->len) {
+                    /* fewer bytes given than the object holds.  ncmp: the first alen bytes decide.  cmp: if they already differ the order is
+                       settled; if they are equal the object is the longer sequence -- GREATER as the ideal sequences compare, EQUAL as the
+                       pinned "compare the bytes given" reading has it; both are accepted, LESS never */
+                    if (k[0] == 'n' || want) { if (got != to_cmp(want)) sim_fail("MISMATCH(query)", "%s returned %d, the first %zu bytes compare %d", k, (int)got, alen, want); }
+                    else if (got == SPIF_CMP_LESS) sim_fail("MISMATCH(query)", "%s returned LESS for an object that begins with the %zu bytes given and is longer", k, alen);
+                }
+                if (alen > m->len) {
+                    /* more bytes given than the object holds: if the common part differs the order is settled; if not, the object is a
+                       proper beginning of the bytes given -- where it has no spare capacity (nothing there to compare) it sorts first */
+                    int c = m->len ? memcmp(m->b, arg, m->len) : 0;
+                    if (c) { if (got != to_cmp(c)) sim_fail("MISMATCH(query)", "%s returned %d although the first %zu bytes already compare %d", k, (int)got, m->len, c); }
+                    else if (k[0] == 'c' && objs[s] && (size_t)objs[s]->size == m->len && got != SPIF_CMP_LESS)      /* (with spare capacity the pinned code compares into it: don't-care) */
+                        sim_fail("MISMATCH(query)", "%s returned %d for an object of exactly %zu bytes against %zu bytes that begin with it: a proper beginning sorts first", k, (int)got, m->len, alen);
+                }
             }
         } else if (!strcmp(k, "dup")) {
             int d = (int)o->a[1];
@@ -516,6 +554,9 @@ static void gen_ctor(plan_t *p, rng_t *r, int slot, int isnew, int hard, int big
         snprintf(kind, sizeof(kind), "%s_fd", pre);
         n = gen_bytes(r, gbuf, sizeof(gbuf), big || rng_chance(r, 1, 3) ? rng_range(r, 1, 2) : 0);
         if (rng_chance(r, 1, 12)) { n = 4096; for (size_t j = 0; j < n; j++) gbuf[j] = (unsigned char)rng_below(r, 256); }
+        int nonblock = !seekable && rng_chance(r, 1, 4);
+        if (nonblock) o = plan_op(p, 0, kind, 4, (long)slot, 0L, 0L, 1L);
+        else
         o = plan_op(p, 0, kind, 3, (long)slot, (long)seekable, (long)(seekable && rng_chance(r, 1, 6) ? rng_below(r, (uint32_t)n + 1) : 0));
         op_str(o, gbuf, n);
         if (seekable && hard && rng_chance(r, 1, 3)) op_fault(o, FAULT(FC_READ, FO_EIO, 0));          /* a regular file that cannot be read */
@@ -527,6 +568,7 @@ static void gen_ctor(plan_t *p, rng_t *r, int slot, int isnew, int hard, int big
                 if (k < 25) op_fault(o, FAULT(FC_READ, FO_FULL, 0));
                 else if (k < 75) op_fault(o, FAULT(FC_READ, FO_SHORT, lims[rng_below(r, 10)]));
                 else if (k < 94) op_fault(o, FAULT(FC_READ, FO_EINTR, 0));
+                else if (nonblock && k < 97) op_fault(o, FAULT(FC_READ, FO_EAGAIN, 0));
                 else if (hard) op_fault(o, FAULT(FC_READ, FO_EIO, 0));
             }
         }
